@@ -11,7 +11,8 @@ op kill <name> past|ahead <0|1>   obs ret=<class> ev=<name>:sig:9 | ev=-   (<0|1
 op foreign <call> <name>          obs ret=ok                             (domain ≠ "runtime")
 op snap                           obs live=<k> <name>=[<status>,…] …     (names ascending, statuses sorted)
 ```
-Names and pids are case-local numbers. -/
+Names and pids are case-local numbers. Further words after the ones shown are annotations for the
+harness's replay (process behaviour, how the exit was brought about, the deadline used) and are ignored. -/
 namespace Rie.Oracle
 open Rie
 
@@ -33,13 +34,13 @@ def parseBool01 (w : String) : Option Bool :=
   if w == "1" then some true else if w == "0" then some false else none
 
 def parseSupOp : List String → Option Supervisor.Op
-  | ["exec", n, "ok"] => n.toNat?.map (.exec · true)
-  | ["exec", n, "fail"] => n.toNat?.map (.exec · false)
-  | ["exit", p, st] => do some (.exit (← p.toNat?) (← parseStatus st))
-  | ["terminate", n] => n.toNat?.map .terminate
-  | ["kill", n, "past", d] => do some (.kill (← n.toNat?) true (← parseBool01 d))
-  | ["kill", n, "ahead", d] => do some (.kill (← n.toNat?) false (← parseBool01 d))
-  | ["foreign", _, _] => some .foreign
+  | "exec" :: n :: "ok" :: _ => n.toNat?.map (.exec · true)
+  | "exec" :: n :: "fail" :: _ => n.toNat?.map (.exec · false)
+  | "exit" :: p :: st :: _ => do some (.exit (← p.toNat?) (← parseStatus st))
+  | "terminate" :: n :: _ => n.toNat?.map .terminate
+  | "kill" :: n :: "past" :: d :: _ => do some (.kill (← n.toNat?) true (← parseBool01 d))
+  | "kill" :: n :: "ahead" :: d :: _ => do some (.kill (← n.toNat?) false (← parseBool01 d))
+  | "foreign" :: _ :: _ :: _ => some .foreign
   | _ => none
 
 def insertSorted (x : String) : List String → List String
